@@ -106,9 +106,16 @@ def parseSingle (readers : List (String × List Rat)) (j : Json) : Except String
     let xs ← getRatMat v "xs"
     let f ← parseFn readers (← v.getObjVal? "f")
     pure (w, L, f, xs)
+  let nmNS ← optM j "norm_ns" fun v => do
+    let w ← getRat v "w"
+    let L ← getRat v "L"
+    let ts ← getRatMat v "ts"
+    let xs ← getRatMat v "xs"
+    let f ← parseFn readers (← v.getObjVal? "f")
+    pure (w, L, f, ts, xs)
   let ob ← optM j "obs" (parseMse readers)
   pure { paramRows := pr, obsRows := orows, het := het, dyn := dyn, icODE := icO, icPDE := icP,
-         boundary := bd, norm := nm, obs := ob }
+         boundary := bd, norm := nm, normNS := nmNS, obs := ob }
 
 def termOr0 (j : Json) (k : String) : Except String Rat :=
   match opt j k with
@@ -227,7 +234,46 @@ def handleC12Sys (j : Json) : Except String Json := do
     ("agree", Json.bool (sameOutcome model o)),
     ("holds", Json.bool holds.isNone), ("clause", jOptStr holds)]
 
+def parseBoolKV (j : Json) : Except String (List (String × Bool)) := do
+  (← j.getArr?).toList.mapM fun m => do
+    pure ((← (← m.getArrVal? 0).getStr?), (← (← m.getArrVal? 1).getBool?))
+
+/-- derivative routing of the dynamic term: `{params, readers, param_rows, dyn: {w,xs,f}, mask: [[key,bool]],
+    dfs: [[key, polyvec of ∂f_c/∂slot_key]], grads: {rows: [[key, rows]], caller: [[key, entries]]}}` -/
+def handleC12Routing (j : Json) : Except String Json := do
+  let p ← parseKV (← j.getObjVal? "params")
+  let readers ← parseKV (← j.getObjVal? "readers")
+  let rows ← parseRows (← j.getObjVal? "param_rows")
+  let m ← parseMse readers (← j.getObjVal? "dyn")
+  let maskL ← parseBoolKV (← j.getObjVal? "mask")
+  let mask : String → Bool := fun k => (get? k maskL).getD false
+  let dfs ← (← getArr j "dfs").mapM fun e => do
+    let k ← (← e.getArrVal? 0).getStr?
+    let pv ← parsePolyVec (← e.getArrVal? 1)
+    pure (k, pv)
+  -- ∂f/∂(entry j of key k) = ∂f/∂slot_k · reader_k[j]
+  let df : Tangent := fun k jj pt q =>
+    let c := ((get? k readers).getD []).getD jj 0
+    ((get? k dfs).getD []).map fun dp => c * evalPoly dp (pt ++ slots readers q)
+  let g ← j.getObjVal? "grads"
+  let grads : Grads := { rows := ← parseRows (← g.getObjVal? "rows"), caller := ← parseKV (← g.getObjVal? "caller") }
+  let holds := holdsC12Routing p rows m df mask grads
+  -- the model's own gradients (code-shaped pipeline)
+  let t := stackTree (ofParams p) rows
+  let ax := inAxes t (some (keys rows))
+  let mRows : List (String × List Val) := rows.map fun r =>
+    (r.1, (List.range m.xs.length).map fun i =>
+      (List.range (r.2.getD i []).length).map fun jj => dynGradRow m df t ax mask r.1 i jj)
+  let mCaller : List (String × Val) := p.map fun kv =>
+    (kv.1, (List.range kv.2.length).map fun jj => dynGradCaller m df t ax mask (keys rows) kv.1 jj)
+  let agree := (mRows.all fun r => (get? r.1 grads.rows) == some r.2) &&
+    (mCaller.all fun r => (get? r.1 grads.caller) == some r.2)
+  pure <| Json.mkObj [
+    ("model_rows", Json.arr (mRows.map fun r => Json.arr #[Json.str r.1, jRatMat r.2]).toArray),
+    ("model_caller", Json.arr (mCaller.map fun r => Json.arr #[Json.str r.1, jRats r.2]).toArray),
+    ("agree", Json.bool agree), ("holds", Json.bool holds.isNone), ("clause", jOptStr holds)]
+
 def opsC12 : List (String × (Json → Except String Json)) :=
-  [("c12", handleC12), ("c12sys", handleC12Sys)]
+  [("c12", handleC12), ("c12sys", handleC12Sys), ("c12routing", handleC12Routing)]
 
 end Jinns.Driver
